@@ -47,7 +47,7 @@ func runReplay(repo, prop string, o *Obligation) (failing string, output string,
 		if rs.FuncSub != "" && !strings.Contains(o.Func, rs.FuncSub) {
 			continue
 		}
-		dir := filepath.Join(verifDir, "work", "replay-"+prop)
+		dir := filepath.Join(workDir, "replay-"+prop)
 		os.MkdirAll(dir, 0o755)
 		// private copies of go.mod/go.sum so that /repo is never modified
 		for _, f := range []string{"go.mod", "go.sum"} {
